@@ -218,4 +218,21 @@ example : (step (run (St.init 4 false) (demoSteps.take 4)).1 (.recv (rsp (.str (
 example : (run (St.init 4 false) [.newSubscribe (lit "sub") (lit "unsub"), .sendTask 0, .recv (rsp (.num 1) "1")]).2 =
     [.wire (encodeRequest { id := .num 0, method := lit "sub", params := none })] := by decide
 
+/-! ### C03.x — what is no message completes nothing (also: the bytes of a binary frame that are no UTF-8) -/
+
+/-- A delivery that is no message of any kind — a text none of the four decoders accepts, or (Driver/ClientFamily.lean,
+`frameText`) the bytes of a binary frame that are not UTF-8 and hence no JSON text at all — changes nothing and completes
+nothing: the read task gives the connection up with `Unparseable`.  In particular no call is ever completed with a
+"repaired" reading of such bytes (seeded mutant C03-R7 parsed `String::from_utf8_lossy` of the frame). -/
+theorem c03_unparseable_completes_nothing (st : Core) (raw : Text) (hg : classifyIncoming raw = .garbage) :
+    handleSingle st raw = { st := st, effs := [], fatal := some .unparseable } := by
+  unfold handleSingle
+  rw [hg]
+
+/-- … and inside an array: the loop stops at the element, nothing after it is looked at -/
+theorem c03_unparseable_element_stops_array (acc : ArrAcc) (e : Text) (rest : List Text)
+    (hg : classifyIncoming e = .garbage) : arrayLoop acc (e :: rest) = (acc, some .unparseable) := by
+  rw [arrayLoop.eq_def]
+  simp only [hg]
+
 end Jrpc.Client
